@@ -443,9 +443,9 @@ theorem constants_match_source :
       (List.range 256).filter (fun n => !Generated.lexWhitespace.contains n && !Generated.lexDelimiters.contains n)) ∧
     (PdfLex.maxDepth = Generated.parserMaxDepth) := by
   refine ⟨?_, ?_, ?_, ?_⟩
-  · decide +kernel
-  · decide +kernel
-  · decide +kernel
-  · decide +kernel
+  · first | decide +kernel | fail "constants_match_source (C03): the model's PdfLex.isWhitespace does not match the source (Generated.lexWhitespace, re-extracted from pdf/src)"
+  · first | decide +kernel | fail "constants_match_source (C03): the model's PdfLex.isDelimiter does not match the source (Generated.lexDelimiters, re-extracted from pdf/src)"
+  · first | decide +kernel | fail "constants_match_source (C03): the model's PdfLex.isRegular does not match the source (Generated.lexDelimiters, Generated.lexWhitespace, re-extracted from pdf/src)"
+  · first | decide +kernel | fail "constants_match_source (C03): the model's PdfLex.maxDepth does not match the source (Generated.parserMaxDepth, re-extracted from pdf/src)"
 
 end C03
